@@ -11,8 +11,8 @@ trap 'git -C /repo worktree remove --force $WT >/dev/null 2>&1; rm -rf $WT' EXIT
 miss=0; n=0
 for s in "$@"; do
   d=$HERE/seeded/$s; [ -f $d/patch.diff ] || continue
-  id=$(/venv/bin/python -c "import json,sys;m=json.load(open('$d/meta.json'));print(m['property'] if m.get('status')!='superseded' else 'SKIP')")
-  if [ "$id" = SKIP ]; then echo "$s superseded by a later repo fix (see meta.json): skipped"; continue; fi
+  id=$(/venv/bin/python -c "import json,sys;m=json.load(open('$d/meta.json'));print(m['property'] if m.get('status') not in ('superseded','outside_statement') else 'SKIP')")
+  if [ "$id" = SKIP ]; then echo "$s superseded by a later repo fix, or not a violation of its property as stated (see meta.json): skipped"; continue; fi
   git -C $WT checkout -q -- . ; git -C $WT clean -fdq -- plasTeX
   if ! git -C $WT apply $d/patch.diff 2>/dev/null; then echo "$s $id patch does not apply to $(git -C /repo rev-parse --short HEAD)"; miss=$((miss+1)); continue; fi
   out=$(cd $HERE && VP_STOP_EARLY=1 VP_REPO=$WT ./check $id --no-evidence 2>&1); rc=$?
